@@ -59,10 +59,19 @@ Theorem C06_partial_repaired_tokeniser : forall allow t l,
 Proof. exact line_partial_fx. Qed.
 Print Assumptions C06_partial_repaired_tokeniser.
 
-(** The repairs only enlarge the domain: every root cause but F3, F4, F5 (typing of the token,
-    [decide_literal_type]) and the [_:b.#comment] remainder of F7 is gone. *)
-Theorem C06_repairs_enlarge_domain : forall t l, C06_dom t l = true -> C06_dom_fx t l = true.
-Proof. exact dom_grows. Qed.
+(** with the typing repair literal-type-from-suffix as well ([nt_fixed_dlt]) *)
+Theorem C06_partial_all_repairs : forall allow t l,
+  valid_triple t = true -> valid_layout l = true -> C06_dom_fx2 t l = true ->
+  kinded_result (read_raw_string_fx2 allow (nt_line t l)) = Some ([kinded t], 0%nat).
+Proof. exact line_partial_fx2. Qed.
+Print Assumptions C06_partial_all_repairs.
+
+(** The repairs only enlarge the domain: the tokeniser repairs remove every root cause but F3, F4,
+    F5 (typing of the token, [decide_literal_type]) and the [_:b.#comment] remainder of F7; the
+    typing repair removes F3, F4, F5. *)
+Theorem C06_repairs_enlarge_domain : forall t l,
+  (C06_dom t l = true -> C06_dom_fx t l = true) /\ (C06_dom_fx t l = true -> C06_dom_fx2 t l = true).
+Proof. intros t l. split; [apply dom_grows | apply dom_grows2]. Qed.
 Print Assumptions C06_repairs_enlarge_domain.
 
 (** ** non-vacuity *)
@@ -191,11 +200,30 @@ Example C06_F1_F2_F6_F7_F8_repaired :
   reads_right_fx (plain (ic "a")) (lay " " " " " " (Some (" "%string, " ^^ <x>"%string))).
 Proof. repeat split; vm_compute; reflexivity. Qed.
 
-(** hence the full statement (no domain restriction) does not hold, whichever tokeniser /repo has *)
+(** ** all three repairs: only the remainder of F7 is left *)
+Lemma C06_F7_refuted_all_repairs : exists t l, rc_F7_fx t l = true /\
+  valid_triple t = true /\ valid_layout l = true /\
+  kinded_result (read_raw_string_fx2 false (nt_line t l)) <> Some ([kinded t], 0%nat).
+Proof.
+  exists (STriple ex_s ex_p (ONode (NBn (Str "b2")))), (lay " " " " "" (Some (""%string, "c"%string))).
+  split; [reflexivity|]. split; [vm_compute; reflexivity | split; [vm_compute; reflexivity | vm_compute; discriminate]].
+Qed.
+
+Definition reads_right_fx2 (t : striple) (l : layout) : Prop :=
+  kinded_result (read_raw_string_fx2 false (nt_line t l)) = Some ([kinded t], 0%nat).
+
+Example C06_F3_F4_F5_repaired :
+  reads_right_fx2 (plain (ic "^^")) (lay " " " " " " None) /\
+  reads_right_fx2 (STriple ex_s ex_p (OLit (ic "xsd:") (SufType (Str "http://e/dt")))) (lay " " " " " " None) /\
+  reads_right_fx2 (STriple ex_s ex_p (OLit (ic "a") (SufType (Str "http://e/a@b")))) (lay " " " " " " None).
+Proof. repeat split; vm_compute; reflexivity. Qed.
+
+(** hence the full statement (no domain restriction) does not hold, whichever text /repo has *)
 Lemma C06_full_refuted : ~ (forall t l, valid_triple t = true -> valid_layout l = true ->
   kinded_result (read_raw_string_cur false (nt_line t l)) = Some ([kinded t], 0%nat)).
 Proof.
-  intros H. unfold read_raw_string_cur in H. destruct nt_fixed_tok.
+  intros H. unfold read_raw_string_cur in H. destruct nt_fixed_tok; [destruct nt_fixed_dlt|].
+  - destruct C06_F7_refuted_all_repairs as (t & l & _ & V & VL & N). apply N. apply H; assumption.
   - destruct C06_F3_refuted_repaired_tokeniser as (t & l & _ & V & VL & N). apply N. apply H; assumption.
   - destruct C06_F1_refuted as (t & l & _ & V & VL & N). apply N. apply H; assumption.
 Qed.
